@@ -106,6 +106,14 @@ func runMpsc(seed uint64, scale int, out string, _ string) *summary {
 					}
 					ch := make(chan pres, 1)
 					go func() { v, ok := q.TryPop(); ch <- pres{v, ok} }()
+					// whether the pop must wait is known: it must exactly when the head of the queue is the
+					// parked producer's reserved slot.  Timing only gives a pop that must wait the chance
+					// to return wrongly; a pop that must return is waited for as long as it takes.
+					mustWait := len(fifo) > 0 && fifo[0] == parked.v
+					patience := 3 * time.Millisecond
+					if !mustWait {
+						patience = 20 * time.Second
+					}
 					select {
 					case po := <-ch:
 						t.line("O %d %d", po.v, b2iG(po.ok))
@@ -120,7 +128,7 @@ func runMpsc(seed uint64, scale int, out string, _ string) *summary {
 								fmt.Sprintf("init=%d max=%d pending=%v", pr[0], pr[1], fifo))
 						}
 						dump(q)
-					case <-time.After(3 * time.Millisecond):
+					case <-time.After(patience):
 						// blocked on the reserved slot: resume the producer, the pop must then deliver it
 						t.line("OW")
 						close(parked.release)
